@@ -30,6 +30,10 @@ type QSubCase struct {
 	Optional []string   `json:"optional"`
 	Affected bool       `json:"affected"`         // AffectedResources callback on the parameterised resource
 	TQCap    int        `json:"tq_cap,omitempty"` // capacity of the index task queue (0 = the library's 256)
+	// Bogus: the AffectedResources callback ends its list with a resource
+	// that no handler serves (the handler then gives up on that one; the
+	// resources before it must have been dealt with)
+	Bogus bool `json:"bogus,omitempty"`
 }
 
 // QSubScenario: clients holding query results through store.QueryHandler are
@@ -55,6 +59,7 @@ func (QSubScenario) GenCase(r *rand.Rand, prop string) interface{} {
 		c.Mutators = append(c.Mutators, muts)
 	}
 	c.TQCap = pick(r, 0, 0, 1, 2)
+	c.Bogus = chance(r, 25)
 	return c
 }
 
@@ -153,6 +158,9 @@ func (QSubScenario) Execute(sim *sched.Sim, ci interface{}, prop string, race bo
 						out = append(out, string(p.ReplaceTag("p", pre)))
 					}
 				}
+			}
+			if c.Bogus {
+				out = append(out, "test.unserved."+qc.ID())
 			}
 			return out
 		}})
